@@ -131,6 +131,8 @@ def oracle(case, out):
     op = case[0]
     if out == "panic":
         return ("panic", "implementation panicked")
+    if out.startswith("fail "):
+        return (out.split()[1], "the conversion for a 2-octet peer is not repeatable on the stored route: %s" % out)
     if not out.startswith("ok"):
         return ("error", "implementation returned %s" % out)
     if op == "rt":
